@@ -195,7 +195,7 @@ class BuildError(Exception):
     pass
 
 
-def coq_make(targets, timeout=1500):
+def coq_make(targets, timeout=420):
     """Full .vo build (no -vos) of the given targets through the coq_makefile Makefile."""
     with flock("coq"):
         mk = os.path.join(COQ, "Makefile")
